@@ -36,6 +36,7 @@ type Expect struct {
 	Std      string `json:"std"`
 	Value    string `json:"value"`
 	Rest     bool   `json:"rest"`
+	Takes    string `json:"takes"` // "value" | "nothing" (an OPTIONAL top-level element taken as absent)
 	RT       bool   `json:"rt"`
 	RTMode   bool   `json:"rtMode"`
 	RTStd    bool   `json:"rtStd"`
@@ -59,6 +60,7 @@ type ShapeRec struct {
 var restBytes = []byte{0xde, 0xad, 0xbe}
 
 type outcome struct {
+	params string // the top-level parameters of the call (without "lax"): Marshal gets the same
 	ok    bool
 	err   string
 	panic string
@@ -77,8 +79,13 @@ func (o outcome) verdict() string {
 	return "reject"
 }
 
-// runFork decodes a private copy of b with the fork (params "" = Unmarshal).
-func runFork(t reflect.Type, b []byte, params string) (o outcome) {
+// runFork decodes a private copy of b with the fork: top = the top-level parameters of the shape (Asn1Lax.tla,
+// "top"), lax = lax mode.  Without either it is Unmarshal, else UnmarshalWithParams.
+func runFork(t reflect.Type, b []byte, top string, lax bool) (o outcome) {
+	params := top
+	if lax {
+		params = withLax(top)
+	}
 	in := append([]byte{}, b...)
 	ptr := reflect.New(t)
 	defer func() {
@@ -96,10 +103,10 @@ func runFork(t reflect.Type, b []byte, params string) (o outcome) {
 	if err != nil {
 		return outcome{err: err.Error()}
 	}
-	return outcome{ok: true, canon: canonVal(ptr.Elem()), rest: rest, ptr: ptr}
+	return outcome{params: top, ok: true, canon: canonVal(ptr.Elem()), rest: rest, ptr: ptr}
 }
 
-func runStd(t reflect.Type, b []byte) (o outcome) {
+func runStd(t reflect.Type, b []byte, top string) (o outcome) {
 	in := append([]byte{}, b...)
 	ptr := reflect.New(t)
 	defer func() {
@@ -107,11 +114,17 @@ func runStd(t reflect.Type, b []byte) (o outcome) {
 			o = outcome{panic: fmt.Sprint(r)}
 		}
 	}()
-	rest, err := stdasn1.Unmarshal(in, ptr.Interface())
+	var rest []byte
+	var err error
+	if top == "" {
+		rest, err = stdasn1.Unmarshal(in, ptr.Interface())
+	} else {
+		rest, err = stdasn1.UnmarshalWithParams(in, ptr.Interface(), top)
+	}
 	if err != nil {
 		return outcome{err: err.Error()}
 	}
-	return outcome{ok: true, canon: canonVal(ptr.Elem()), rest: rest, ptr: ptr}
+	return outcome{params: top, ok: true, canon: canonVal(ptr.Elem()), rest: rest, ptr: ptr}
 }
 
 func marshalFork(o outcome) (b []byte, errs string) {
@@ -120,7 +133,13 @@ func marshalFork(o outcome) (b []byte, errs string) {
 			b, errs = nil, "panic: "+fmt.Sprint(r)
 		}
 	}()
-	out, err := asn1.Marshal(o.ptr.Elem().Interface())
+	var out []byte
+	var err error
+	if o.params == "" {
+		out, err = asn1.Marshal(o.ptr.Elem().Interface())
+	} else {
+		out, err = asn1.MarshalWithParams(o.ptr.Elem().Interface(), o.params)
+	}
 	if err != nil {
 		return nil, err.Error()
 	}
@@ -128,7 +147,13 @@ func marshalFork(o outcome) (b []byte, errs string) {
 }
 
 func marshalStd(o outcome) ([]byte, string) {
-	out, err := stdasn1.Marshal(o.ptr.Elem().Interface())
+	var out []byte
+	var err error
+	if o.params == "" {
+		out, err = stdasn1.Marshal(o.ptr.Elem().Interface())
+	} else {
+		out, err = stdasn1.MarshalWithParams(o.ptr.Elem().Interface(), o.params)
+	}
 	if err != nil {
 		return nil, err.Error()
 	}
@@ -144,6 +169,7 @@ type realized struct {
 	canon    string
 	tFork    reflect.Type
 	tStd     reflect.Type
+	top      string // top-level parameters: the field parameters of the root of the shape
 	ctx      string // kind of the node at the defect (and of its parent), for fingerprints
 	root     *VNode // the value tree the bytes were made from
 }
@@ -167,11 +193,14 @@ func realizeInst(cs *Case, key string, tree *Node, inst int) (*realized, error) 
 	if cs.C.Defect == "truncated" {
 		enc = enc[:endOffset(root, cs.C.Path)-1]
 	}
-	r := &realized{tree: tree, consumed: enc, canon: canonExp(root), root: root}
+	r := &realized{tree: tree, consumed: enc, canon: canonExp(root), root: root, top: rootParams(tree)}
 	r.input = append([]byte{}, enc...)
 	if cs.E.Rest {
 		r.input = append(r.input, restBytes...)
 		r.rest = restBytes
+	}
+	if cs.E.Takes == "nothing" {
+		r.consumed, r.rest = nil, r.input
 	}
 	r.tFork = cachedType(key, tree, fork, nil)
 	r.tStd = cachedType(key, tree, std, nil)
@@ -180,6 +209,7 @@ func realizeInst(cs *Case, key string, tree *Node, inst int) (*realized, error) 
 	if n.K == "any" {
 		r.ctx = strings.Join(n.P, "+")
 	}
+	r.ctx += clsClass(n)
 	if len(cs.C.Path) > 0 {
 		r.ctx += "@" + tree.at(cs.C.Path[:len(cs.C.Path)-1]).K
 	}
@@ -203,6 +233,24 @@ func tfClass(tf *TimeForm) string {
 		return fmt.Sprintf(":tf=%d", local)
 	}
 	return fmt.Sprintf(":tf=%d/%d", local, utc)
+}
+
+// clsClass names the tag parameters of a tagged node for fingerprints ("", "[impl]", "[expl+private]",
+// "[impl+application+private+optional]").
+func clsClass(n *Node) string {
+	if !n.tagged() {
+		return ""
+	}
+	out := "[impl"
+	if n.K == "explicit" {
+		out = "[expl"
+	}
+	for _, o := range []string{"application", "private", "optional"} {
+		if n.has(o) {
+			out += "+" + o
+		}
+	}
+	return out + "]"
 }
 
 func hx(b []byte) string { return hex.EncodeToString(b) }
@@ -260,10 +308,10 @@ func runCase(cs *Case, shapes map[string]*Node, rep *vh.Report, t *testing.T) {
 		return
 	}
 	id := fmt.Sprintf("%s:%s%s", cs.C.Defect, r.ctx, tfClass(&cs.C.TF))
-	replay := map[string]any{"case": cs, "input_hex": hx(r.input), "go_type": r.tFork.String()}
+	replay := map[string]any{"case": cs, "input_hex": hx(r.input), "go_type": r.tFork.String(), "params": r.top}
 
 	// upstream: a disagreement with the model is an error of the model / of the DER builder, not of the fork
-	so := runStd(r.tStd, r.input)
+	so := runStd(r.tStd, r.input, r.top)
 	if so.verdict() != cs.E.Std {
 		t.Errorf("model of encoding/asn1 is wrong: %+v input %s type %v: model %s, encoding/asn1 %s %s", cs.C, hx(r.input), r.tStd, cs.E.Std, so.verdict(), so.err)
 		return
@@ -332,11 +380,11 @@ func runCase(cs *Case, shapes map[string]*Node, rep *vh.Report, t *testing.T) {
 		}
 	}
 
-	strict := runFork(r.tFork, r.input, "")
+	strict := runFork(r.tFork, r.input, r.top, false)
 	check("strict", strict, cs.E.Strict, cs.E.RT, cs.E.MEq)
 	switch cs.C.Mode {
 	case "laxTop", "laxAncestor":
-		lax := runFork(r.tFork, r.input, "lax")
+		lax := runFork(r.tFork, r.input, r.top, true)
 		check(cs.C.Mode, lax, cs.E.Mode, cs.E.RTMode, cs.E.MEqMode)
 		if strict.ok && lax.ok && (strict.canon != lax.canon || !bytes.Equal(strict.rest, lax.rest)) {
 			rep.Violate("laxsuperset:"+cs.C.Mode+":"+id, fmt.Sprintf("strict and lax both accept %s into %v with different results: %s rest %x vs %s rest %x",
@@ -344,7 +392,7 @@ func runCase(cs *Case, shapes map[string]*Node, rep *vh.Report, t *testing.T) {
 		}
 	case "fieldTag":
 		tt := cachedType(cs.C.key(), r.tree, fork, cs.C.LaxAt)
-		o := runFork(tt, r.input, "")
+		o := runFork(tt, r.input, r.top, false)
 		if cs.E.Mode == "unasserted" {
 			// named clause FieldTagLax: recorded, not asserted
 			if o.panic != "" {
@@ -429,6 +477,7 @@ type base struct {
 	input []byte
 	tFork reflect.Type
 	tStd  reflect.Type
+	top   string // top-level parameters
 }
 
 func bases(cases []Case, shapes map[string]*Node, t *testing.T) []base {
@@ -451,14 +500,14 @@ func bases(cases []Case, shapes map[string]*Node, t *testing.T) []base {
 		if len(r.input) > 2048 && !(c.C.Defect == "none" && len(c.C.Wrap) == 0) {
 			continue // the long inputs of the length-octet dimension: only the plain well-formed ones are mutated
 		}
-		out = append(out, base{k, r.input, r.tFork, r.tStd})
+		out = append(out, base{k, r.input, r.tFork, r.tStd, r.top})
 	}
 	sort.Slice(out, func(i, j int) bool { return out[i].key < out[j].key })
 	return out
 }
 
 var interesting = []byte{0x00, 0x01, 0x7f, 0x80, 0x81, 0x82, 0x84, 0xff, 0x02, 0x03, 0x05, 0x06, 0x0c, 0x13, 0x16, 0x17, 0x18, 0x1f,
-	0x30, 0x31, 0xa0, 0xa1, 0xbf, 0x9f, 0x2e, 0x5a}
+	0x30, 0x31, 0xa0, 0xa1, 0xbf, 0x9f, 0x2e, 0x5a, 0x41, 0x61, 0x7f, 0xc1, 0xe1, 0xff, 0x81}
 
 func mutate(rng *rand.Rand, in []byte, other []byte) []byte {
 	b := append([]byte{}, in...)
@@ -468,7 +517,7 @@ func mutate(rng *rand.Rand, in []byte, other []byte) []byte {
 			continue
 		}
 		i := rng.Intn(len(b))
-		switch rng.Intn(12) {
+		switch rng.Intn(13) {
 		case 0:
 			b[i] ^= 1 << uint(rng.Intn(8))
 		case 1:
@@ -497,6 +546,8 @@ func mutate(rng *rand.Rand, in []byte, other []byte) []byte {
 				y := x + rng.Intn(len(other)-x)
 				b = append(b[:i], append(append([]byte{}, other[x:y]...), b[i:]...)...)
 			}
+		case 12: // another tag class (if the octet is an identifier)
+			b[i] ^= byte(1+rng.Intn(3)) << 6
 		case 11: // swap
 			j := rng.Intn(len(b))
 			b[i], b[j] = b[j], b[i]
@@ -527,10 +578,10 @@ var laxExcuses = []string{"integer not minimally-encoded", "zero length OBJECT I
 
 // laws checks the metamorphic laws on one input; they need no model verdict.
 func laws(bs *base, in []byte, rep *vh.Report, mutated bool) (accepted bool) {
-	strict := runFork(bs.tFork, in, "")
-	lax := runFork(bs.tFork, in, "lax")
-	so := runStd(bs.tStd, in)
-	replay := map[string]any{"base": bs.key, "input_hex": hx(in), "go_type": bs.tFork.String()}
+	strict := runFork(bs.tFork, in, bs.top, false)
+	lax := runFork(bs.tFork, in, bs.top, true)
+	so := runStd(bs.tStd, in, bs.top)
+	replay := map[string]any{"base": bs.key, "input_hex": hx(in), "go_type": bs.tFork.String(), "params": bs.top}
 	shape := strings.SplitN(bs.key, "/", 2)[0]
 	for which, o := range map[string]outcome{"strict": strict, "lax": lax} {
 		if o.panic != "" {
@@ -671,12 +722,16 @@ func TestMutate(t *testing.T) {
 func checkAlloc(b *base, in []byte, rep *vh.Report) float64 {
 	var ms runtime.MemStats
 	maxRatio := 0.0
-	for _, params := range []string{"", "lax"} {
+	for _, lax := range []bool{false, true} {
+		params := b.top
+		if lax {
+			params = withLax(b.top)
+		}
 		best := ^uint64(0)
 		for try := 0; try < 3; try++ {
 			runtime.ReadMemStats(&ms)
 			before := ms.TotalAlloc
-			runFork(b.tFork, in, params)
+			runFork(b.tFork, in, b.top, lax)
 			runtime.ReadMemStats(&ms)
 			if d := ms.TotalAlloc - before; d < best {
 				best = d
